@@ -40,6 +40,11 @@ def gen_cases(tier, seed):
                       'workers': r.choice([1, 2]), 'batch': 0, 'fuzz': False, 'process': True, 'pt': i % 2 == 1, 'seed': r.randrange(1 << 30)})
     for i in range(3 if tier == 'quick' else 20):
         cases.append({'scenario': 'wait-bound', 'mode': 'async' if i % 2 else 'sync', 'capacity': 1, 'seed': rng.randrange(1 << 30)})
+    # the block is left while callers are still waiting for room
+    for i, (mode, cap, nw) in enumerate([('sync', 1, 2), ('async', 1, 2), ('sync', 2, 3), ('async', 2, 1), ('sync', 1, 1), ('async', 1, 4)]):
+        if tier == 'quick' and i >= 4:
+            break
+        cases.append({'scenario': 'exit-with-waiters', 'mode': mode, 'capacity': cap, 'waiters': nw, 'seed': rng.randrange(1 << 30)})
     # a big request in transfer to a busy worker process must not hold up other callers (three queue layouts)
     for i, (layout, mode) in enumerate([('PT', 'sync'), ('PT', 'async'), ('P', 'sync'), ('TP', 'sync'), ('P', 'async'), ('TP', 'async')]):
         if tier == 'quick' and i >= 4:
@@ -107,6 +112,8 @@ def run_case(case):
     CountingCondition.waits = {}
     dr = watch.DeathRecorder().install()
 
+    if case['scenario'] == 'exit-with-waiters':
+        return _exit_with_waiters(case, viol, obs, SV, real_threading, dr)
     if case['scenario'] == 'stalled-pipe':
         return _stalled_pipe(case, viol, obs, SV, real_threading, dr)
     if case['scenario'] == 'wait-bound':
@@ -337,6 +344,91 @@ def run_case(case):
     if viol or case.get('process'):
         res['exit_after'] = True
     return res
+
+
+def _exit_with_waiters(case, viol, obs, SV, real_threading, dr):
+    """The server block is left while callers are still waiting for room (backpressure off).  Once those callers have come back, the stopped
+    server holds nothing; entered again, the same object is idle with backlog 0 and accepts a plain call."""
+    from mpservice.mpserver import AsyncServer, Server, ServerBacklogFull, ThreadServlet
+
+    cap = case['capacity']
+    nw = case['waiters']
+    box = {'outcomes': []}
+
+    def sync_run():
+        server = Server(ThreadServlet(ST.TagWorker, tag='A', num_threads=cap), capacity=cap)
+        ths = []
+        with server:
+            for k in range(cap):
+                t = threading.Thread(target=lambda k=k: box['outcomes'].append(_try(lambda: server.call(('tok', k, 0, (('A', 'sleep', 0.4),)), timeout=10))), name=f'holder-{k}')
+                t.start()
+                ths.append(t)
+            while server.backlog < cap:
+                time.sleep(0.001)
+            for k in range(nw):
+                t = threading.Thread(target=lambda k=k: box['outcomes'].append(_try(lambda: server.call(('tok', 50 + k, 0, ()), timeout=1.5, backpressure=False))), name=f'waiter-{k}')
+                t.start()
+                ths.append(t)
+            time.sleep(0.1)
+        for t in ths:
+            t.join()
+        box['after_exit'] = server.backlog
+        with server:
+            time.sleep(0.05)
+            box['reentered_idle'] = server.backlog
+            box['plain'] = _try(lambda: server.call(('tok', 99, 0, ()), timeout=5))
+        box['final'] = server.backlog
+
+    async def async_run():
+        server = AsyncServer(ThreadServlet(ST.TagWorker, tag='A', num_threads=cap), capacity=cap)
+
+        async def one(t, **kw):
+            try:
+                return await server.call(t, **kw)
+            except Exception as e:  # noqa: BLE001
+                return e
+
+        async with server:
+            tasks = [asyncio.ensure_future(one(('tok', k, 0, (('A', 'sleep', 0.4),)), timeout=10)) for k in range(cap)]
+            while server.backlog < cap:
+                await asyncio.sleep(0.001)
+            tasks += [asyncio.ensure_future(one(('tok', 50 + k, 0, ()), timeout=1.5, backpressure=False)) for k in range(nw)]
+            await asyncio.sleep(0.1)
+        box['outcomes'] = list(await asyncio.gather(*tasks))
+        box['after_exit'] = server.backlog
+        async with server:
+            await asyncio.sleep(0.05)
+            box['reentered_idle'] = server.backlog
+            box['plain'] = await one(('tok', 99, 0, ()), timeout=5)
+        box['final'] = server.backlog
+
+    def _try(f):
+        try:
+            return f()
+        except BaseException as e:  # noqa: BLE001
+            return e
+
+    try:
+        watch.run_bounded((lambda: asyncio.run(async_run())) if case['mode'] == 'async' else sync_run, 60, 'exit-with-waiters scenario')
+    except watch.Hang as h:
+        viol.append({'mech': 'backlog/hang', 'msg': 'exit-with-waiters scenario did not finish', 'stacks': h.stacks})
+        return {'violations': viol, 'obs': obs, 'exit_after': True}
+    finally:
+        SV.threading = real_threading
+        dr.uninstall()
+    obs['requests'] = cap + nw + 1
+    obs['exit_with_waiters_runs'] = 1
+    obs['idle_checks'] = 2
+    what = f'{case["mode"]}, capacity {cap}, {nw} callers waiting for room when the block was left'
+    if box.get('after_exit'):
+        viol.append({'mech': 'backlog/slot-not-returned/after-exit', 'msg': f'{what}: backlog is {box["after_exit"]} on the stopped server after every caller has come back'})
+    if box.get('reentered_idle'):
+        viol.append({'mech': 'backlog/slot-not-returned/reentered-idle', 'msg': f'{what}: the same server entered again is idle but reports backlog {box["reentered_idle"]}'})
+    if box.get('plain') != ('A', ('tok', 99, 0, ())):
+        viol.append({'mech': 'backlog/idle-server-rejects', 'msg': f'{what}: a plain call on the re-entered idle server got {box.get("plain")!r}'})
+    return {'violations': viol, 'obs': obs, 'nontrivial': True, 'sig': hash(('exit-with-waiters', case['mode'], cap, nw)) & 0xFFFFFFFFFFFF,
+            'sample': {'scenario': 'exit-with-waiters', 'mode': case['mode'], 'capacity': cap, 'waiters': nw, 'outcomes': [repr(o)[:50] for o in box['outcomes']],
+                       'backlog_after_exit': box.get('after_exit'), 'backlog_reentered_idle': box.get('reentered_idle')}}
 
 
 def _stalled_pipe(case, viol, obs, SV, real_threading, dr):
